@@ -297,10 +297,10 @@ def peekArea (r : Rec) (aid : Nat) : Rec :=
   let r1 :=
     if r.clean.contains aid then r
     else
-      let (ra, pre) := slotFeatures r aid .pre
-      let (rb, cross) := slotFeatures ra aid .cross
-      let (rc, post) := slotFeatures rb aid .post
-      { rc with tupleVal := (aid, [pre, cross, post]) :: rc.tupleVal, clean := aid :: rc.clean }
+      let p1 := slotFeatures r aid .pre
+      let p2 := slotFeatures p1.1 aid .cross
+      let p3 := slotFeatures p2.1 aid .post
+      { p3.1 with tupleVal := (aid, [p1.2, p2.2, p3.2]) :: p3.1.tupleVal, clean := aid :: p3.1.clean }
   let snap := ((r1.tupleVal.find? fun x => x.1 == aid).map (·.2)).getD [[], [], []]
   { r1 with log := r1.log ++ [r1.children aid :: snap] }
 
